@@ -270,6 +270,9 @@ class LSMTree(Entity):
         self._total_sstables_checked: int = 0
         self._total_bloom_saves: int = 0
 
+        # WAL sequence numbers that are logged but not yet applied to a memtable
+        self._wal_inflight: set[int] = set()
+
     def downstream_entities(self) -> list[Entity]:
         if self._wal is not None:
             return [self._wal]
@@ -343,7 +346,10 @@ class LSMTree(Entity):
 
         # WAL append
         if self._wal is not None:
+            seq = self._wal._next_sequence
+            self._wal_inflight.add(seq)
             yield from self._wal.append(key, value)
+            self._wal_inflight.discard(seq)
             self._total_wal_writes += 1
 
         # Memtable put
@@ -453,7 +459,10 @@ class LSMTree(Entity):
         self._logical_data.pop(key, None)
 
         if self._wal is not None:
+            seq = self._wal._next_sequence
+            self._wal_inflight.add(seq)
             yield from self._wal.append(key, _TOMBSTONE)
+            self._wal_inflight.discard(seq)
             self._total_wal_writes += 1
 
         is_full = yield from self._memtable.put(key, _TOMBSTONE)
@@ -508,6 +517,17 @@ class LSMTree(Entity):
         )
         self._memtable.set_clock(self._clock)
 
+        # WAL entries covered by this flush: everything logged so far, except
+        # entries still on their way to a memtable (they will land in the new
+        # one). Must be decided now; appends during the write delay below
+        # belong to the new memtable.
+        truncate_up_to = 0
+        if self._wal is not None:
+            if self._wal_inflight:
+                truncate_up_to = min(self._wal_inflight) - 1
+            else:
+                truncate_up_to = self._wal._next_sequence - 1
+
         # Flush to SSTable
         sstable = old_memtable.flush()
         self._sstable_bytes_written += sstable.size_bytes
@@ -525,7 +545,7 @@ class LSMTree(Entity):
 
         # Truncate WAL
         if self._wal is not None:
-            self._wal.truncate(self._wal._next_sequence - 1)
+            self._wal.truncate(truncate_up_to)
 
         logger.debug(
             "[%s] Flushed memtable to L0 SSTable(%d keys), L0 now has %d SSTables",
@@ -668,6 +688,7 @@ class LSMTree(Entity):
         if self._clock is not None:
             self._memtable.set_clock(self._clock)
         self._immutable_memtables.clear()
+        self._wal_inflight.clear()
 
         # Crash WAL — discard unsynced entries
         wal_lost = 0
